@@ -4,11 +4,11 @@ PROPS = {
     "C18": {
         "modules": ["Cose.Props.C18", "Cose.Props.CwtEndToEnd"],
         "families": ["cwt", "claims"],
-        "spec_ops": ["cwt.spec", "claims.enc"],
+        "spec_ops": ["cwt.spec", "cwt.wallclock", "claims.enc"],
         "n_quick": 20000, "n_thorough": 2000000,
         "rule": "boundary lattice {0,1,now±skew±1,2^31,2^32,2^62,2^63-62135596800±1,2^63-1,2^63,2^64-1,…}^3 x flags x skews "
                 "(half of the stream near-valid) from one PRNG seed; each case run as cwt.validatemap (mirror), "
-                "cwt.spec (RFC 8392 rule in plain integers) and cwt.validate (struct path); distinct = distinct op line the model answered",
+                "cwt.spec (RFC 8392 rule in plain integers) and cwt.validate (struct path); distinct = distinct op line the model answered; claim values that are arrays / nested arrays / maps; cwt.wallclock: one validator without FixedNow over a token that expires within 3 s, before and after",
         "trusted_base": ["Cose.Spec.Rfc8392 (reading of RFC 8392 §3.1.4-3.1.6)",
                          "model of Go time.Time (Cose.Cwt.Time) tied by correspondence only"],
         "assumptions": ["FixedNow is set (non-zero), after the Unix epoch and within 2^62 s of year 1",
@@ -39,21 +39,21 @@ PROPS = {
     },
     "C11": {
         "modules": ["Cose.Props.C11"],
-        "families": ["prim:mac"],
+        "families": ["prim:mac", "impl"],
         "spec_ops": ["prim.mac", "prim.macverify", "prim.mac2"],
         "extras": [{"name": "race", "pkg": "./race", "build_flags": ["-race"], "args": ["-seed", "{seed}", "-n", "{n}", "-only", "hmac,aesmac,MACer"],
                     "n_quick": 40, "n_thorough": 600, "timeout": 3000}],
         "n_quick": 3000, "n_thorough": 200000,
         "rule": "8 MAC algorithms x random keys (1/12 of wrong size 0..80) x message lengths covering every residue mod 16/64/128, 0, "
                 "and 65279..70000; each tag then verified as is / truncated / extended / bit-flipped / for other data / under another key; "
-                "library answer compared with the Lean HMAC-SHA2 and AES-CBC-MAC reference; results of earlier calls stay untouched by later ones (prim.mac2); a -race program with shared MACers",
+                "library answer compared with the Lean HMAC-SHA2 and AES-CBC-MAC reference; results of earlier calls stay untouched by later ones (prim.mac2); a -race program with shared MACers; message and tag slices sit in larger buffers whose tails are checked afterwards; key objects lacking k",
         "trusted_base": ["Lean SHA-2 and AES reference cores (validated by FIPS/RFC KATs as #guard and by this differential run)",
                          "RFC 9053 tables 3 and 4 as transcribed in Props/C11.lean"],
         "assumptions": ["SHA-2 output lengths are hypotheses of hmac_tag_length", "unforgeability of HMAC/CBC-MAC is not a theorem"],
     },
     "C12": {
         "modules": ["Cose.Props.C12"],
-        "families": ["prim:aead"],
+        "families": ["prim:aead", "impl"],
         "spec_ops": ["prim.aead.enc", "prim.aead.dec", "prim.aead2"],
         "extras": [{"name": "race", "pkg": "./race", "build_flags": ["-race"], "args": ["-seed", "{seed}", "-n", "{n}", "-only", "aesgcm,aesccm,chacha,Encryptor"],
                     "n_quick": 40, "n_thorough": 600, "timeout": 3000}],
@@ -71,7 +71,7 @@ PROPS = {
         "spec_ops": ["prim.hkdf256", "prim.hkdf512", "prim.hkdfaes", "prim.hkdfaes.read"],
         "n_quick": 1500, "n_thorough": 60000,
         "rule": "secrets/salts incl. empty, info lengths 0..200 (every residue mod 16), output lengths 0..255*HashLen+1 incl. limits, "
-                "random read chunkings of the Go reader; library vs Lean RFC 5869 over HMAC-SHA-256/512 and over AES-CBC-MAC",
+                "random read chunkings of the Go reader; library vs Lean RFC 5869 over HMAC-SHA-256/512 and over AES-CBC-MAC; every chunk buffer is overwritten before the next Read",
         "trusted_base": ["Lean SHA-2 / AES reference cores", "RFC 5869 as transcribed in Constructions.lean"],
         "assumptions": ["the chunking law of the Go reader is established by correspondence (random chunkings), the prefix and limit laws by theorem"],
     },
@@ -82,7 +82,7 @@ PROPS = {
         "n_quick": 500, "n_thorough": 60000,
         "rule": "6 kinds x 24 algorithms x payload {nil, empty, raw of every CBOR length class, pre-encoded CBOR, typed map} x header maps (int/text labels; int, bstr, tstr, bool, array, nested-map values) "
                 "x external data {nil, empty, random} x 1-3 signers / 1-3 recipients incl. one nesting level; each produced message consumed tagged, untagged and CWT-tagged; "
-                "byte-exact comparison of the produced message (deterministic algorithms), of the bytes handed to the primitive and of the decoded view",
+                "byte-exact comparison of the produced message (deterministic algorithms), of the bytes handed to the primitive and of the decoded view; payloads of named byte-slice types (mode named); caller-supplied protected buckets holding IV / Partial IV",
         "trusted_base": ["model of the six message kinds (Cose.Msg.Model) hand-written, tied by correspondence; to-be-authenticated literals regenerated", "Lean crypto references for predicting verdicts"],
         "assumptions": ["signature correctness (SigCorrect) for ECDSA / Ed25519: assumed in the theorem, cross-checked by the Lean EC reference in the run"],
     },
@@ -119,7 +119,7 @@ PROPS = {
         "modules": ["Cose.Props.C05"], "families": ["msg:C05", "msg:C04", "map"], "spec_ops": [],
         "n_quick": 300, "n_thorough": 40000,
         "rule": "per case: a produce with the protected alg given as int / int64 / key.Alg / other width / another registered alg / text / nil / out-of-range; a produce with nil headers (defaults recorded) and its consume; "
-                "a consume with a key of another algorithm sharing the key bytes where the family allows (HMAC 256/64 vs 256/256, AES-MAC, CCM, GCM); a message without protected alg",
+                "a consume with a key of another algorithm sharing the key bytes where the family allows (HMAC 256/64 vs 256/256, AES-MAC, CCM, GCM); a message without protected alg; foreign messages with alg in both buckets and later signatures naming another algorithm",
         "trusted_base": ["model of the six message kinds (Cose.Msg.Model) hand-written, tied by correspondence; to-be-authenticated literals regenerated", "Lean crypto references for predicting verdicts"],
         "assumptions": [],
     },
@@ -135,15 +135,16 @@ PROPS = {
         "modules": ["Cose.Props.C09", "Cose.Props.C09Sign", "Cose.Props.KdfRoundtrip"], "families": ["msg:C09", "kdf", "claims", "dec"], "spec_ops": ["kdf.enc", "claims.enc", "dec.bytestr", "dec.keyjson"],
         "n_quick": 400, "n_thorough": 40000,
         "rule": "library-produced messages of the 6 kinds re-encoded (tagged and untagged input), RemoveCBORTag on tagged and CWT-tagged input; foreign non-canonical messages re-encoded then consumed again "
-                "(decode -> encode -> decode -> verify on the library, predicted by the model)",
+                "(decode -> encode -> decode -> verify on the library, predicted by the model); the decoded object is independent of its input buffer and of other objects decoded from the same octets (buffer overwritten, header maps edited), and a Verify / Decrypt leaves its re-encoding unchanged (every kind x every algorithm at fixed slots)",
         "trusted_base": ["model of the six message kinds (Cose.Msg.Model) hand-written, tied by correspondence; to-be-authenticated literals regenerated", "Lean crypto references for predicting verdicts"],
         "assumptions": ["value round trips of Key / Headers / recipients are tied by correspondence ops (map.unmarshal, msg.*), not by a general theorem"],
     },
     "C16": {
         "modules": ["Cose.Props.C16"], "families": ["impl:C16", "key", "sig", "ecdh"], "spec_ops": ["impl.malformed"],
+        "model_queries": [["iana.diff", "ok none"]],
         "n_quick": 1000, "n_thorough": 100000,
         "rule": "keys of the 8 families with key_ops subsets of 1..10 in the representations key.Ops / []int / []any of mixed integer kinds, set before construction and changed (same / deleted / new list / malformed) "
-                "after construction; per case the implementation is constructed and each operation attempted (create+verify, encrypt+decrypt, sign, verify, derive); malformed key_ops via the spec op impl.malformed",
+                "after construction; per case the implementation is constructed and each operation attempted (create+verify, encrypt+decrypt, sign, verify, derive); malformed key_ops via the spec op impl.malformed; the ten key-operation numbers of iana/ proved equal to RFC 9052 table 5 over the regenerated table, with the model query iana.diff naming a differing constant",
         "trusted_base": ["key layer model (Cose.Key.*) hand-written, tied by correspondence; family whitelists regenerated from the CheckKey skeletons"],
         "assumptions": ["known finding D9 (uninterpretable key_ops lift the restriction) is listed in known_findings.txt and proved as malformed_ops_unusable_cex"],
     },
@@ -171,7 +172,7 @@ PROPS = {
         "n_quick": 500, "n_thorough": 40000,
         "rule": "ES256/384/512 + EdDSA x keys incl. leading-zero scalars/coordinates x messages 0..70000 bytes; library-made signatures (and r at the codec boundary values 1, 2^k, n-1) verified by the Lean "
                 "ECDSA / Ed25519 reference under public keys in derived / exported / compressed form; every signature then mutated (bit flip, truncation, extension, leading zero, random) and the verdicts compared; "
-                "Ed25519 signatures byte-identical; the r||s codec alone (sig.decode / sig.encode: lengths around 2n, halves with leading zeros, integers at the size limit); a -race program with shared signers / verifiers",
+                "Ed25519 signatures byte-identical; the r||s codec alone (sig.decode / sig.encode: lengths around 2n, halves with leading zeros, integers at the size limit); a -race program with shared signers / verifiers; at fixed slots: messages of 4096..32768 octets, the nil message, the ASN.1 DER form of a valid (r, s), OKP keys with an ill-formed d; arguments sit in larger buffers whose tails are checked afterwards",
         "trusted_base": ["Lean ECDSA / Ed25519 / SHA-2 reference (RFC 6979, RFC 8032 KATs + this run)"],
         "assumptions": ["signature correctness and unforgeability are not theorems"],
     },
@@ -191,7 +192,7 @@ PROPS = {
         "extras": [{"name": "race", "pkg": "./race", "build_flags": ["-race"], "args": ["-seed", "{seed}", "-n", "{n}"],
                     "n_quick": 60, "n_thorough": 1500, "timeout": 3000}],
         "rule": "-race build: 16 goroutines x n operations x 32 shared instances (24 algorithm implementations, an ECDHer per curve, the Key.MACer / Encryptor / Signer+Verifier factories on a shared key, "
-                "one Validator); every result compared with the sequential one (deterministic operations byte-equal, ECDSA signatures verified); distinct = total operations / goroutines",
+                "one Validator); every result compared with the sequential one (deterministic operations byte-equal, ECDSA signatures verified); distinct = total operations / goroutines; first look-ups of alg-less keys from all goroutines at once (sequential reference computed afterwards); a caller rewriting its ValidatorOpts while others validate",
         "trusted_base": ["extractor footprint classifier (typed AST) and the allow-list of external callees in Props/C19.lean", "Go race detector (search support only)"],
         "assumptions": ["the Go memory model, the scheduler and the thread-safety of crypto/* objects held in fields (cipher.Block) are assumed, not modelled; a theorem cannot exhibit a race"],
     },
